@@ -2,7 +2,7 @@
    scan-findable frames mixed), for every depth: induction on the list of frame specs with the callee's validity
    set and register file as the invariant. *)
 From Coq Require Import Lia ZArith List Bool.
-From RM Require Import C05.Model C05.Proofs C04.Model C04.Proofs.
+From RM Require Import C05.Model C05.Proofs C04.Model C04.Proofs C04.ProofsFp.
 Import ListNotations.
 Open Scope Z_scope.
 
@@ -41,6 +41,7 @@ Variable instr_valid : Z -> bool.
 Variable base : Z.
 Variable all : list mspec.
 Variable ip0 : Z.
+Variable fp0 : Z.
 Variable gp0 : list Z.
 
 Hypothesis Ha : arch_ok a.
@@ -52,7 +53,13 @@ Hypothesis Hn_csp : reg_valid a (a_cfi_sp_name a) (plain_valid a) = true.
    valid fp of 0 is the technique's own end-of-chain marker and ends the walk); ARM64 rejects the pc it reads *)
 Hypothesis Hfp_arm : a_fp a = FpArm -> (os =? OS_IOS) = false.
 Hypothesis Hfp_arm64 : a_fp a = FpArm64 -> a_canon_fp a 0 = false.
-Hypothesis Hwf : mix_wf_layout a instr_valid module_at base ip0 all = true.
+(* frame-pointer frames: the guard of two words, the frame pointer is callee-saved (CFI frames carry it), the validity
+   set of a frame-pointer frame names sp (under both spellings) and fp *)
+Hypothesis Hg2 : a_fp_guard_words a = 2.
+Hypothesis Hfv_sp : reg_valid a (a_sp_name a) (VSome (fp_valid a)) = true.
+Hypothesis Hfv_csp : reg_valid a (a_cfi_sp_name a) (VSome (fp_valid a)) = true.
+Hypothesis Hfv_fp : memb (a_fp_name a) (fp_valid a) = true.
+Hypothesis Hwf : mix_wf_layout a instr_valid module_at base ip0 fp0 all = true.
 
 Notation mem := (mk_mem a base (mix_words all)).
 Notation walkf := (walk current_code p a os mem module_at max_module_addr cfi_walk instr_valid).
@@ -66,14 +73,22 @@ Proof. destruct m_pw_cases as [[-> _]|[-> _]]; cbn; lia. Qed.
 Lemma m_W_64 : 2 ^ a_bits a <= 2 ^ 64.
 Proof. destruct m_pw_cases as [[-> _]|[-> _]]; cbn; lia. Qed.
 
-Lemma mwf_parts : mix_frames_ok a instr_valid module_at true ip0 all = true /\ instr_ok a instr_valid 0 = false /\
+Lemma mwf_parts : mix_frames_ok a instr_valid module_at base true ip0 0 (Some fp0) all = true /\ instr_ok a instr_valid 0 = false /\
   a_pw a < base /\ base + a_pw a * mix_total all < 2 ^ a_bits a.
 Proof.
   assert (H := Hwf). unfold mix_wf_layout in H.
+  apply andb_prop in H. destruct H as [H _]. apply andb_prop in H. destruct H as [H _].
   apply andb_prop in H. destruct H as [H H4]. apply andb_prop in H. destruct H as [H H3].
   apply andb_prop in H. destruct H as [H1 H2].
   apply Z.ltb_lt in H3. apply Z.ltb_lt in H4. unfold instr_ok.
   destruct (a_pre_ok a 0 && instr_valid 0); [discriminate|]. auto.
+Qed.
+
+Lemma mwf_fp0 : 0 <= fp0 /\ (a_strip a = true -> fp0 < 2 ^ 47).
+Proof.
+  assert (H := Hwf). unfold mix_wf_layout in H.
+  apply andb_prop in H. destruct H as [H H6]. apply andb_prop in H. destruct H as [_ H5].
+  apply Z.leb_le in H5. split; [exact H5|]. intros E. rewrite E in H6. cbn in H6. apply Z.ltb_lt in H6. exact H6.
 Qed.
 
 Lemma m_mem_len : mem_len mem = a_pw a * mix_total all.
@@ -121,6 +136,73 @@ Proof.
     rewrite H0. destruct (0 >=? fp_limit a) eqn:E1; [rewrite Z.geb_leb in E1; apply Z.leb_le in E1; lia|].
     cbn [Z.eqb obind]. rewrite (strip_small a max_module_addr 0) by lia. rewrite (Hfp_arm64 eq_refl). reflexivity.
 Qed.
+
+(* ---- one frame-pointer step in any stack memory: the record [nf; ra] at the callee's frame pointer F *)
+Section FpStep.
+Variable callee : frame.
+Variables F S nf ra : Z.
+Hypothesis Hmix : fp_mixable a = true.
+Hypothesis HF : r_fp (f_regs callee) = F.
+Hypothesis HS : r_sp (f_regs callee) = S.
+Hypothesis Vf : reg_valid a (a_fp_name a) (f_valid callee) = true.
+Hypothesis Vs : reg_valid a (a_sp_name a) (f_valid callee) = true.
+Hypothesis HFpos : 0 < F.
+Hypothesis HSF : S <= F.
+Hypothesis Htop : F + a_pw a * 2 + 1 < 2 ^ a_bits a.
+Hypothesis R1 : read mem (a_pw a) F = Some nf.
+Hypothesis R2 : read mem (a_pw a) (F + a_pw a) = Some ra.
+Hypothesis R3 : a_fp a = FpAmd64 -> exists v, read mem (a_pw a) (F + a_pw a * 2) = Some v.
+Hypothesis R4 : a_fp a = FpAmd64 -> exists v, read mem (a_pw a) nf = Some v.
+Hypothesis Hnf : a_fp a = FpAmd64 -> F + a_pw a * 2 <= nf.
+Hypothesis Hnf0 : 0 <= nf.
+Hypothesis Hnf47 : a_strip a = true -> nf < 2 ^ 47.
+Hypothesis Hra : 0 <= ra.
+Hypothesis Hra47 : a_strip a = true -> ra < 2 ^ 47.
+Hypothesis Hcanon : a_canon_fp a ra = true.
+
+Lemma m_fp_step : by_fp current_code p a os mem max_module_addr callee
+  = Ret (Some (ctx_regs ra (F + a_pw a * 2) nf, fp_valid a)).
+Proof.
+  pose proof (pw_pos a m_pw_cases) as Hp. pose proof m_W_64 as HW.
+  assert (G : (F >=? fp_limit a) = false).
+  { rewrite Z.geb_leb. apply Z.leb_gt. unfold fp_limit, MAXW, W, PW. rewrite Hg2. lia. }
+  unfold fp_mixable in Hmix.
+  unfold by_fp. destruct (a_fp a) eqn:Ek; try discriminate Hmix.
+  - (* x86 *)
+    unfold fp_x86. rewrite Vf, HF, G. cbn [negb]. unfold PW, W.
+    rewrite chk_add_ok by lia. cbn [obind]. rewrite R2, R1.
+    rewrite chk_add_ok by lia. cbn [obind]. unfold fp_valid. rewrite Ek. reflexivity.
+  - (* amd64 *)
+    unfold fp_amd64. rewrite Vf, Vs, HF, HS, G. cbn [negb].
+    assert (RS : forall n step, resolve current_code p a mem (Datatypes.S n) 0 step F S = Ret (Some (ra, nf, F + a_pw a * 2))).
+    { intros n step. cbn [resolve]. unfold radd. cbn [fx_checked_resolve current_code]. unfold W, PW.
+      replace (0 * step) with 0 by lia.
+      rewrite chk_mul_ok by (replace (0 * step) with 0 by lia; lia). cbn [obind].
+      unfold checked_add.
+      rewrite Z.add_0_r.
+      destruct (F <? 2 ^ a_bits a) eqn:E1; [|apply Z.ltb_ge in E1; lia]. cbn [obind].
+      destruct (F + a_pw a <? 2 ^ a_bits a) eqn:E2; [|apply Z.ltb_ge in E2; lia]. cbn [obind]. rewrite R2, R1.
+      destruct (F + a_pw a * 2 <? 2 ^ a_bits a) eqn:E3; [|apply Z.ltb_ge in E3; lia]. cbn [obind].
+      destruct (F + a_pw a * 2 <=? F) eqn:E4; [apply Z.leb_le in E4; lia|].
+      pose proof (Hnf eq_refl) as Hnf'.
+      destruct (nf <? F + a_pw a * 2) eqn:E5; [apply Z.ltb_lt in E5; lia|]. cbn [orb].
+      destruct (R4 eq_refl) as [v4 R4']. rewrite R4'. rewrite Hcanon. cbn [negb].
+      unfold stack_seems_valid, PW.
+      destruct (F + a_pw a * 2 <=? S) eqn:E6; [apply Z.leb_le in E6; lia|].
+      destruct (R3 eq_refl) as [v3 R3']. rewrite R3'. reflexivity. }
+    destruct (os =? OS_WINDOWS).
+    + replace (Z.to_nat (amd64_win_scan_max + 1)) with (Datatypes.S 15) by reflexivity. rewrite RS. cbn [obind].
+      unfold fp_valid. rewrite Ek. reflexivity.
+    + replace (Z.to_nat (amd64_other_scan_max + 1)) with (Datatypes.S 0) by reflexivity. rewrite RS. cbn [obind].
+      unfold fp_valid. rewrite Ek. reflexivity.
+  - (* arm64 *)
+    unfold fp_arm. rewrite Ek. rewrite Vf, Vs, HF, HS, G. cbn [negb].
+    destruct (F =? 0) eqn:E0; [apply Z.eqb_eq in E0; lia|]. unfold PW, W. rewrite R1.
+    rewrite chk_add_ok by lia. cbn [obind]. rewrite R2. rewrite chk_add_ok by lia. cbn [obind].
+    rewrite (strip_id a max_module_addr nf) by auto. rewrite (strip_id a max_module_addr ra) by auto.
+    rewrite Hcanon. cbn [negb]. unfold fp_valid. rewrite Ek. reflexivity.
+Qed.
+End FpStep.
 
 (* ---- the scan over [skipped words][zeros][return address], with the frame pointer unknown or known to be 0 *)
 Section OneRecord.
@@ -212,7 +294,7 @@ Qed.
 
 (* validity sets the walk meets: the stack pointer is always valid *)
 Lemma next_valid_sp : forall t v, reg_valid a (a_sp_name a) (mix_next_valid a t v) = true.
-Proof. intros [|] v; cbn [mix_next_valid]; [apply cfi_names_ok; exact Hcfisp | exact Hn_sp]. Qed.
+Proof. intros [| |] v; cbn [mix_next_valid]; [apply cfi_names_ok; exact Hcfisp | exact Hn_sp | exact Hfv_sp]. Qed.
 
 Lemma mix_lookup_skip : forall done fs o,
   mix_lookup (a_pw a) base o (done ++ fs) (base + a_pw a * (o + mix_total done))
@@ -227,48 +309,101 @@ Proof.
     replace (o + (ms_len f + 1 + mix_total t)) with (o + ms_len f + 1 + mix_total t) by lia. exact IH.
 Qed.
 
-Lemma frames_ok_cons : forall ctx instr f t, mix_frames_ok a instr_valid module_at ctx instr (f :: t) = true ->
+Definition has_name (n : Z) (v : validity) : bool := match v with VAll => true | VSome l => memb n l end.
+Lemma has_name_valid : forall n v, has_name n v = true -> reg_valid a n v = true.
+Proof.
+  intros n [|l] H; [reflexivity|]. cbn [has_name] in H. unfold reg_valid, alias_group. cbn [existsb]. rewrite H. reflexivity.
+Qed.
+Lemma memb_app_l : forall x l1 l2, memb x l1 = true -> memb x (l1 ++ l2) = true.
+Proof. intros x l1 l2 H. unfold memb in *. rewrite existsb_app, H. reflexivity. Qed.
+Lemma memb_filter : forall x (g : Z -> bool) l, memb x l = true -> g x = true -> memb x (filter g l) = true.
+Proof.
+  intros x g l H Hg. unfold memb in *. apply existsb_exists in H. destruct H as [y [Hin Hy]]. apply Z.eqb_eq in Hy. subst y.
+  apply existsb_exists. exists x. split; [apply filter_In; auto | apply Z.eqb_refl].
+Qed.
+(* a CFI frame carries a valid frame pointer on: it is callee-saved *)
+Lemma has_name_forwarded : forall v l2, memb (a_fp_name a) (a_callee_saved a) = true -> has_name (a_fp_name a) v = true ->
+  has_name (a_fp_name a) (VSome (forwarded a v ++ l2)) = true.
+Proof.
+  intros v l2 Hm H. cbn [has_name]. apply memb_app_l. destruct v as [|l]; cbn [forwarded]; [exact Hm|].
+  apply memb_filter; [exact Hm | exact H].
+Qed.
+
+Lemma frames_ok_cons : forall ctx instr off st f t, mix_frames_ok a instr_valid module_at base ctx instr off st (f :: t) = true ->
   words_in_range a (ms_fill f) = true /\ a_cutoff a <= ms_ra f < 2 ^ a_bits a /\
   (match ms_tech f with
-   | TkCfi => module_at instr <> None /\ (a_strip a = true -> ms_ra f < 2 ^ 47)
+   | TkCfi => module_at instr <> None /\ (a_strip a = true -> ms_ra f < 2 ^ 47) /\
+              (st_val st <> 0 -> memb (a_fp_name a) (a_callee_saved a) = true)
    | TkScan =>
        let lo := if ctx then 0 else scan_skip_words a in
        let win := if ctx then a_scan_context a else a_scan_default a in
        lo <= ms_len f /\ ms_len f - lo < win /\ all_zero (skipn (Z.to_nat lo) (ms_fill f)) = true /\
-       instr_ok a instr_valid (ms_ra f) = true
+       instr_ok a instr_valid (ms_ra f) = true /\ st_val st = 0
+   | TkFp =>
+       let nf := last (ms_fill f) 0 in
+       let csp := base + a_pw a * (off + ms_len f + 1) in
+       fp_mixable a = true /\ 1 <= ms_len f /\ st = Some (base + a_pw a * (off + ms_len f - 1)) /\
+       a_canon_fp a (ms_ra f) = true /\ (a_strip a = true -> ms_ra f < 2 ^ 47 /\ nf < 2 ^ 47) /\
+       csp + 1 < 2 ^ a_bits a /\
+       (a_fp a = FpAmd64 -> 1 <= mix_total t /\ csp <= nf /\ nf + a_pw a <= csp + a_pw a * mix_total t)
    end) /\
-  mix_frames_ok a instr_valid module_at false (ms_ra f - a_adj a) t = true.
+  mix_frames_ok a instr_valid module_at base false (ms_ra f - a_adj a) (off + ms_len f + 1)
+                (mix_next_st (ms_tech f) (ms_fill f) st) t = true.
 Proof.
-  intros ctx instr f t H. cbn [mix_frames_ok] in H.
+  intros ctx instr off st f t H. cbn [mix_frames_ok] in H.
   apply andb_prop in H. destruct H as [H H5]. apply andb_prop in H. destruct H as [H H4].
   apply andb_prop in H. destruct H as [H H3]. apply andb_prop in H. destruct H as [H1 H2].
   apply Z.leb_le in H2. apply Z.ltb_lt in H3.
   split; [exact H1|]. split; [lia|]. split; [|exact H5].
   destruct (ms_tech f).
-  - apply andb_prop in H4. destruct H4 as [H6 H7]. split.
+  - apply andb_prop in H4. destruct H4 as [H4 H8]. apply andb_prop in H4. destruct H4 as [H6 H7]. split; [|split].
     + destruct (module_at instr); [discriminate|discriminate H6].
     + intros E. rewrite E in H7. cbn in H7. apply Z.ltb_lt in H7. exact H7.
+    + intros Hnz. apply orb_prop in H8. destruct H8 as [H8|H8]; [|exact H8]. exfalso. apply Hnz.
+      destruct st as [v|]; [|reflexivity]. cbn in H8. apply Z.eqb_eq in H8. cbn. exact H8.
   - cbv zeta in H4. cbv zeta.
+    apply andb_prop in H4. destruct H4 as [H4 H11].
     apply andb_prop in H4. destruct H4 as [H4 H10]. apply andb_prop in H4. destruct H4 as [H4 H9].
     apply andb_prop in H4. destruct H4 as [H4 H8]. apply andb_prop in H4. destruct H4 as [H6 H7].
-    apply Z.leb_le in H6. apply Z.ltb_lt in H7. unfold instr_ok. rewrite H9, H10. auto.
+    apply Z.leb_le in H6. apply Z.ltb_lt in H7. unfold instr_ok. rewrite H9, H10.
+    repeat split; auto. destruct st as [v|]; [|reflexivity]. cbn in H11. apply Z.eqb_eq in H11. cbn. exact H11.
+  - cbv zeta in H4. cbv zeta.
+    apply andb_prop in H4. destruct H4 as [H4 H12].
+    apply andb_prop in H4. destruct H4 as [H4 H11]. apply andb_prop in H4. destruct H4 as [H4 H10].
+    apply andb_prop in H4. destruct H4 as [H4 H9]. apply andb_prop in H4. destruct H4 as [H4 H8].
+    apply andb_prop in H4. destruct H4 as [H6 H7].
+    apply Z.leb_le in H7. apply Z.ltb_lt in H11.
+    split; [exact H6|]. split; [exact H7|]. split.
+    { destruct st as [v|]; [|discriminate H8]. cbn in H8. apply Z.eqb_eq in H8. subst v. reflexivity. }
+    split; [exact H9|]. split.
+    { intros E. rewrite E in H10. cbn in H10. apply andb_prop in H10. destruct H10 as [A B].
+      apply Z.ltb_lt in A. apply Z.ltb_lt in B. auto. }
+    split; [exact H11|].
+    intros E. rewrite E in H12. apply andb_prop in H12. destruct H12 as [H12 C]. apply andb_prop in H12. destruct H12 as [A B].
+    apply Z.leb_le in A. apply Z.leb_le in B. apply Z.leb_le in C. auto.
 Qed.
 
-Lemma frames_ok_app : forall l1 l2 ctx instr, mix_frames_ok a instr_valid module_at ctx instr (l1 ++ l2) = true ->
-  exists ctx' instr', mix_frames_ok a instr_valid module_at ctx' instr' l2 = true.
+Lemma frames_ok_app : forall l1 l2 ctx instr off st, mix_frames_ok a instr_valid module_at base ctx instr off st (l1 ++ l2) = true ->
+  exists ctx' instr' off' st', mix_frames_ok a instr_valid module_at base ctx' instr' off' st' l2 = true.
 Proof.
-  induction l1 as [|f t IH]; intros l2 ctx instr H.
-  - exists ctx, instr. exact H.
-  - cbn [app] in H. apply frames_ok_cons in H. destruct H as [_ [_ [_ H]]]. exact (IH l2 _ _ H).
+  induction l1 as [|f t IH]; intros l2 ctx instr off st H.
+  - exists ctx, instr, off, st. exact H.
+  - cbn [app] in H. apply frames_ok_cons in H. destruct H as [_ [_ [_ H]]]. exact (IH l2 _ _ _ _ H).
 Qed.
 
 Definition rstate (callee : frame) (done : list mspec) : Prop :=
-  r_sp (f_regs callee) = base + a_pw a * mix_total done /\ r_fp (f_regs callee) = 0 /\ r_lr (f_regs callee) = 0 /\
+  r_sp (f_regs callee) = base + a_pw a * mix_total done /\ r_lr (f_regs callee) = 0 /\
   reg_valid a (a_sp_name a) (f_valid callee) = true /\ reg_valid a (a_cfi_sp_name a) (f_valid callee) = true /\
   f_instr callee = prev_instr a ip0 done.
 
+(* the callee's frame pointer: its value is the state's (0 when not valid), a stack-like value where pointer
+   authentication bits are stripped, and named by the validity set when the state says valid *)
+Definition fpinv (callee : frame) (st : option Z) : Prop :=
+  r_fp (f_regs callee) = st_val st /\ 0 <= st_val st /\ (a_strip a = true -> st_val st < 2 ^ 47) /\
+  (forall v, st = Some v -> v <> 0 -> has_name (a_fp_name a) (f_valid callee) = true).
+
 (* the symbol-file oracle answers like the correct one on the frames this walk reaches: the callee of the record after
-   [done] has its sp at that record, fp = lr = 0, a valid sp, and the lookup address of its position *)
+   [done] has its sp at that record, lr = 0, a valid sp, and the lookup address of its position *)
 Hypothesis Hagree : forall done f t callee gc fwd, all = done ++ f :: t -> rstate callee done ->
   cfi_walk callee gc fwd = mix_cfi_correct a base all callee gc fwd.
 
@@ -278,19 +413,24 @@ Proof. induction done as [|x d IH]; intros; cbn [app prev_instr]; [reflexivity|a
 Lemma csp_cfi_valid : forall l, reg_valid a (a_cfi_sp_name a) (VSome (l ++ [a_cfi_sp_name a; a_cfi_ip_name a])) = true.
 Proof. intros l. unfold reg_valid, alias_group. cbn [existsb]. rewrite memb_last2. reflexivity. Qed.
 
-Lemma mix_chain_walk : forall fs done callee gc fuel,
+Lemma last_split : forall (l : list Z), l <> [] -> l = removelast l ++ [last l 0].
+Proof. intros l H. apply app_removelast_last. exact H. Qed.
+
+Lemma mix_chain_walk : forall fs done callee gc fuel st,
   all = done ++ fs ->
   rstate callee done ->
-  mix_frames_ok a instr_valid module_at (is_context (f_trust callee)) (f_instr callee) fs = true ->
+  fpinv callee st ->
+  mix_frames_ok a instr_valid module_at base (is_context (f_trust callee)) (f_instr callee) (mix_total done) st fs = true ->
   (is_context (f_trust callee) = true -> fs <> []) ->
   (length fs < fuel)%nat ->
-  walkf fuel callee gc = Ret (mix_chain a (f_valid callee) (r_gp (f_regs callee)) base (mix_total done) fs).
+  walkf fuel callee gc = Ret (mix_chain a (f_valid callee) (r_gp (f_regs callee)) st base (mix_total done) fs).
 Proof.
   pose proof (pw_pos a m_pw_cases) as Hp. pose proof m_W_pos as HW. pose proof m_W_64 as HW64.
   destruct mwf_parts as [Hgall [Hjunk [Hb0 Htop]]].
   pose proof m_mem_len as Hml. destruct Hskip as [Hsk0 Hskeq].
   pose proof Ha as Ha'. destruct Ha' as [_ [_ [_ [_ [_ [_ [_ [_ [_ [Hadj Hle]]]]]]]]]].
-  induction fs as [|f t IH]; intros done callee gc fuel Hall Hrs Hg Hctx Hfuel; pose proof Hrs as [Hsp [Hfp [Hlr [Hvsp [Hvcsp Hinstr]]]]];
+  induction fs as [|f t IH]; intros done callee gc fuel st Hall Hrs Hfi Hg Hctx Hfuel;
+    pose proof Hrs as [Hsp [Hlr [Hvsp [Hvcsp Hinstr]]]]; pose proof Hfi as [Hfp [Hst0 [Hst47 Hstv]]];
     (destruct fuel as [|k]; [cbn in Hfuel; lia|]); cbn [walk].
   - assert (Enc : is_context (f_trust callee) = false).
     { destruct (is_context (f_trust callee)); [exfalso; apply Hctx; reflexivity | reflexivity]. }
@@ -317,35 +457,38 @@ Proof.
     assert (Elook : mix_lookup (a_pw a) base 0 all (r_sp (f_regs callee)) = Some (ms_tech f, sp', ms_ra f)).
     { rewrite Hsp, Hall. pose proof (mix_lookup_skip done (f :: t) 0) as L. cbn [Z.add] in L. rewrite L.
       cbn [mix_lookup]. rewrite Z.eqb_refl. reflexivity. }
-    (* the tail of the induction, shared by both techniques *)
+    (* the tail of the induction, shared by the techniques *)
     assert (Tail : forall callee', f_instr callee' = ms_ra f - a_adj a -> is_context (f_trust callee') = false ->
-              rstate callee' (done ++ [f]) ->
+              rstate callee' (done ++ [f]) -> fpinv callee' (mix_next_st (ms_tech f) (ms_fill f) st) ->
               walkf k callee' (Some callee) =
-              Ret (mix_chain a (f_valid callee') (r_gp (f_regs callee')) base (mix_total done + ms_len f + 1) t)).
-    { intros callee' Hi Hc Hst.
-      specialize (IH (done ++ [f]) callee' (Some callee) k).
+              Ret (mix_chain a (f_valid callee') (r_gp (f_regs callee')) (mix_next_st (ms_tech f) (ms_fill f) st)
+                             base (mix_total done + ms_len f + 1) t)).
+    { intros callee' Hi Hc Hst Hfi'.
+      specialize (IH (done ++ [f]) callee' (Some callee) k (mix_next_st (ms_tech f) (ms_fill f) st)).
       rewrite mix_total_app in IH. cbn [mix_total] in IH.
       replace (mix_total done + (ms_len f + 1 + 0)) with (mix_total done + ms_len f + 1) in IH by lia.
       apply IH.
       - rewrite <- app_assoc. exact Hall.
       - exact Hst.
+      - exact Hfi'.
       - rewrite Hc, Hi. exact Hgt.
       - rewrite Hc. intros; discriminate.
       - cbn [length] in Hfuel. lia. }
     destruct (ms_tech f) eqn:Etech.
     + (* described by CFI *)
-      destruct Htech as [Hmod H47].
+      destruct Htech as [Hmod [H47 Hcs]].
       assert (Estrip : strip a max_module_addr (ms_ra f) = ms_ra f).
       { unfold strip. destruct (a_strip a) eqn:Es; [|reflexivity].
         pose proof (strip_small a max_module_addr (ms_ra f)) as S. unfold strip in S. rewrite Es in S. apply S.
         pose proof (H47 eq_refl). lia. }
       assert (Estrip0 : strip a max_module_addr 0 = 0) by (apply strip_small; lia).
+      assert (Estripf : strip a max_module_addr (st_val st) = st_val st) by (apply strip_id; auto).
       set (v' := forwarded a (f_valid callee) ++ [a_cfi_sp_name a; a_cfi_ip_name a]).
       assert (Ecfi : by_cfi a module_at max_module_addr cfi_walk callee gc =
-                     Some ({| r_ip := ms_ra f; r_sp := sp'; r_fp := 0; r_lr := 0; r_gp := r_gp (f_regs callee) |}, v')).
+                     Some ({| r_ip := ms_ra f; r_sp := sp'; r_fp := st_val st; r_lr := 0; r_gp := r_gp (f_regs callee) |}, v')).
       { unfold by_cfi. rewrite Hvsp. cbn [negb]. destruct (module_at (f_instr callee)); [|contradiction].
         rewrite (Hagree done f t callee gc _ Hall Hrs). unfold mix_cfi_correct. rewrite Elook.
-        unfold cfi_post. cbn [r_ip r_sp r_fp r_lr r_gp]. rewrite Hfp, Hlr, Estrip, Estrip0. fold v'.
+        unfold cfi_post. cbn [r_ip r_sp r_fp r_lr r_gp]. rewrite Hfp, Hlr, Estrip, Estrip0, Estripf. fold v'.
         destruct (reg_valid a (a_fp_name a) (VSome v')); destruct (reg_valid a (a_lr_name a) (VSome v')); reflexivity. }
       unfold get_caller_frame, cascade. rewrite Ecfi. cbn [obind from_context f_regs r_ip r_sp].
       destruct (ms_ra f <? a_cutoff a) eqn:E1; [apply Z.ltb_lt in E1; lia|].
@@ -362,8 +505,11 @@ Proof.
         -- apply cfi_names_ok. exact Hcfisp.
         -- apply csp_cfi_valid.
         -- rewrite prev_instr_snoc. reflexivity.
+      * cbn [mix_next_st]. unfold fpinv. cbn [set_instr from_context f_regs f_valid r_fp]. repeat split; auto.
+        intros v0 E0 Hnz. apply has_name_forwarded; [apply Hcs; rewrite E0; exact Hnz | exact (Hstv v0 E0 Hnz)].
     + (* found by scanning *)
-      cbv zeta in Htech. destruct Htech as [Hlo [Hwin [Hz Hok]]].
+      cbv zeta in Htech. destruct Htech as [Hlo [Hwin [Hz [Hok Hstz]]]].
+      assert (Hfp0 : r_fp (f_regs callee) = 0) by (rewrite Hfp; exact Hstz).
       set (lo := if is_context (f_trust callee) then 0 else scan_skip_words a) in *.
       assert (Hlo0 : 0 <= lo) by (unfold lo; destruct (is_context (f_trust callee)); lia).
       (* the callee is not described by CFI *)
@@ -394,7 +540,7 @@ Proof.
         unfold sp'. rewrite Hg. do 4 f_equal. lia. }
       assert (Hspr : 0 <= base + a_pw a * mix_total done < 2 ^ a_bits a) by (rewrite Htot in Htop; nia).
       assert (Escan : by_scan p a mem instr_valid callee = Ret (Some (ctx_regs (ms_ra f) sp' 0, [a_ip_name a; a_sp_name a]))).
-      { unfold by_scan. rewrite Hvsp. cbn [negb]. rewrite Hsp, (m_view_id _ Hspr), Hfp.
+      { unfold by_scan. rewrite Hvsp. cbn [negb]. rewrite Hsp, (m_view_id _ Hspr), Hfp0.
         assert (Hbp : (if reg_valid a (a_fp_name a) (f_valid callee) then Some 0 else None) = None \/
                       (if reg_valid a (a_fp_name a) (f_valid callee) then Some 0 else None) = Some 0).
         { destruct (reg_valid a (a_fp_name a) (f_valid callee)); auto. }
@@ -410,7 +556,7 @@ Proof.
             replace (base + a_pw a * mix_total done + a_pw a * scan_skip_words a)
               with (base + a_pw a * (mix_total done + scan_skip_words a)) by lia.
             apply F; [exact Hbp|lia]. }
-      unfold get_caller_frame, cascade. rewrite Ecfi, (by_fp_zero callee Hfp). cbn [obind]. rewrite Escan. unfold ctx_regs.
+      unfold get_caller_frame, cascade. rewrite Ecfi, (by_fp_zero callee Hfp0). cbn [obind]. rewrite Escan. unfold ctx_regs.
       cbn [obind from_context f_regs r_ip r_sp].
       destruct (ms_ra f <? a_cutoff a) eqn:E1; [apply Z.ltb_lt in E1; lia|].
       unfold sp_progress. cbn [f_regs r_sp from_context]. rewrite Hle, Hsp. unfold sp'.
@@ -426,16 +572,92 @@ Proof.
         -- exact Hn_sp.
         -- exact Hn_csp.
         -- rewrite prev_instr_snoc. reflexivity.
+      * cbn [mix_next_st]. unfold fpinv. cbn [set_instr from_context f_regs f_valid r_fp st_val]. repeat split; try lia.
+        intros v0 E0. discriminate E0.
+    + (* found through the frame pointer *)
+      cbv zeta in Htech. destruct Htech as [Hmx [Hl1 [Est' [Hcan [H47 [Hcsp Hamd]]]]]].
+      set (nf := last (ms_fill f) 0) in *.
+      set (F := base + a_pw a * (mix_total done + ms_len f - 1)).
+      assert (HF : r_fp (f_regs callee) = F) by (rewrite Hfp, Est'; reflexivity).
+      assert (Hne : ms_fill f <> []).
+      { intros E. unfold ms_len in Hl1. rewrite E in Hl1. cbn in Hl1. lia. }
+      assert (Hfill : ms_fill f = removelast (ms_fill f) ++ [nf]) by (apply last_split; exact Hne).
+      assert (Hrl : Z.of_nat (length (removelast (ms_fill f))) = ms_len f - 1).
+      { unfold ms_len. rewrite Hfill at 2. rewrite app_length. cbn [length]. lia. }
+      assert (Hnfr : 0 <= nf < 2 ^ a_bits a).
+      { rewrite Hfill in Hwr. rewrite words_in_range_app in Hwr. apply andb_prop in Hwr. destruct Hwr as [_ Hwr].
+        cbn [words_in_range forallb] in Hwr. rewrite andb_true_r in Hwr. apply andb_prop in Hwr. destruct Hwr as [A B].
+        apply Z.leb_le in A. apply Z.ltb_lt in B. lia. }
+      assert (Ecfi : by_cfi a module_at max_module_addr cfi_walk callee gc = None).
+      { unfold by_cfi. rewrite Hvsp. cbn [negb]. destruct (module_at (f_instr callee)); [|reflexivity].
+        rewrite (Hagree done f t callee gc _ Hall Hrs). unfold mix_cfi_correct. rewrite Elook. reflexivity. }
+      assert (Hws1 : mix_words all = (mix_words done ++ removelast (ms_fill f)) ++ nf :: (ms_ra f :: mix_words t)).
+      { rewrite Hall, mix_words_app. cbn [mix_words]. rewrite Hfill at 1. rewrite <- !app_assoc. reflexivity. }
+      assert (Hws2 : mix_words all = (mix_words done ++ ms_fill f) ++ ms_ra f :: mix_words t).
+      { rewrite Hall, mix_words_app. cbn [mix_words]. rewrite <- !app_assoc. reflexivity. }
+      assert (R1 : read mem (a_pw a) F = Some nf).
+      { unfold F. replace (mix_total done + ms_len f - 1) with (Z.of_nat (length (mix_words done ++ removelast (ms_fill f))))
+          by (rewrite app_length, Nat2Z.inj_add, mix_words_length; lia).
+        rewrite Hws1. apply read_at; [exact m_pw_cases|exact Hnfr]. }
+      assert (R2 : read mem (a_pw a) (F + a_pw a) = Some (ms_ra f)).
+      { replace (F + a_pw a) with (base + a_pw a * Z.of_nat (length (mix_words done ++ ms_fill f)))
+          by (rewrite app_length, Nat2Z.inj_add, mix_words_length; unfold F, ms_len; lia).
+        rewrite Hws2. apply read_at; [exact m_pw_cases|lia]. }
+      assert (EFsp : F + a_pw a * 2 = sp') by (unfold F, sp'; lia).
+      assert (Q1 : 0 <= a_pw a * (mix_total done + ms_len f - 1)) by (apply Z.mul_nonneg_nonneg; lia).
+      assert (Q2 : a_pw a * mix_total done <= a_pw a * (mix_total done + ms_len f - 1)) by (apply Z.mul_le_mono_nonneg_l; lia).
+      assert (A1 : 0 < F) by (unfold F; lia).
+      assert (A2 : base + a_pw a * mix_total done <= F) by (unfold F; lia).
+      assert (A3 : F + a_pw a * 2 + 1 < 2 ^ a_bits a) by (rewrite EFsp; unfold sp'; exact Hcsp).
+      assert (A4 : a_fp a = FpAmd64 -> exists v, read mem (a_pw a) (F + a_pw a * 2) = Some v).
+      { intros E. destruct (Hamd E) as [A [B C]]. rewrite EFsp. apply read_bounds_some.
+        - cbn [m_base mk_mem]. unfold sp'. nia.
+        - rewrite Hml, Htot. cbn [m_base mk_mem]. unfold sp'. nia. }
+      assert (A5 : a_fp a = FpAmd64 -> exists v, read mem (a_pw a) nf = Some v).
+      { intros E. destruct (Hamd E) as [A [B C]]. apply read_bounds_some.
+        - cbn [m_base mk_mem]. nia.
+        - rewrite Hml, Htot. cbn [m_base mk_mem]. nia. }
+      assert (A6 : a_fp a = FpAmd64 -> F + a_pw a * 2 <= nf).
+      { intros E. destruct (Hamd E) as [A [B C]]. rewrite EFsp. exact B. }
+      assert (A7 : a_strip a = true -> nf < 2 ^ 47) by (intros E; destruct (H47 E); assumption).
+      assert (A8 : a_strip a = true -> ms_ra f < 2 ^ 47) by (intros E; destruct (H47 E); assumption).
+      assert (A9 : reg_valid a (a_fp_name a) (f_valid callee) = true).
+      { apply has_name_valid. apply (Hstv F); [rewrite Est'; reflexivity | lia]. }
+      assert (A10 : 0 <= nf) by lia.
+      assert (Efp : by_fp current_code p a os mem max_module_addr callee
+                    = Ret (Some (ctx_regs (ms_ra f) sp' nf, fp_valid a))).
+      { rewrite <- EFsp.
+        exact (m_fp_step callee F (base + a_pw a * mix_total done) nf (ms_ra f) Hmx HF Hsp A9 Hvsp A1 A2 A3 R1 R2 A4 A5 A6 A10 A7 Hra0 A8 Hcan). }
+      unfold get_caller_frame, cascade. rewrite Ecfi, Efp. unfold ctx_regs.
+      cbn [obind from_context f_regs r_ip r_sp].
+      destruct (ms_ra f <? a_cutoff a) eqn:E1; [apply Z.ltb_lt in E1; lia|].
+      unfold sp_progress. cbn [f_regs r_sp from_context]. rewrite Hle, Hsp. unfold sp'.
+      destruct (base + a_pw a * (mix_total done + ms_len f + 1) <=? base + a_pw a * mix_total done) eqn:E2;
+        [apply Z.leb_le in E2; nia|]. cbn [negb].
+      rewrite chk_sub_ok by lia. cbn [obind].
+      rewrite Tail.
+      * cbn [obind mix_chain set_instr from_context f_valid f_regs r_gp]. rewrite Etech. reflexivity.
+      * reflexivity.
+      * reflexivity.
+      * unfold rstate. cbn [set_instr from_context f_regs f_valid f_instr r_sp r_fp r_lr]. repeat split.
+        -- unfold sp'. rewrite mix_total_app. cbn [mix_total]. lia.
+        -- exact Hfv_sp.
+        -- exact Hfv_csp.
+        -- rewrite prev_instr_snoc. reflexivity.
+      * cbn [mix_next_st]. fold nf. unfold fpinv. cbn [set_instr from_context f_regs f_valid r_fp st_val has_name].
+        repeat split; try lia.
+        -- intros E. destruct (H47 E). assumption.
+        -- intros v0 _ _. exact Hfv_fp.
 Qed.
 
 Lemma mix_recovers : forall fuel, (length all < fuel)%nat ->
-  let '(r, v, m) := mix_layout a base ip0 gp0 all in
+  let '(r, v, m) := mix_layout a base ip0 fp0 gp0 all in
   walk_stack current_code p a os m module_at max_module_addr cfi_walk instr_valid fuel r v
-  = Ret (from_context r v TContext :: mix_chain a v gp0 base 0 all).
+  = Ret (from_context r v TContext :: mix_chain a v gp0 (Some fp0) base 0 all).
 Proof.
   intros fuel Hfuel. cbn [mix_layout]. unfold walk_stack.
   destruct mwf_parts as [Hgall [Hjunk [Hb0 Htop]]]. pose proof m_mem_len as Hml.
-  pose proof (pw_pos a m_pw_cases) as Hp. pose proof m_W_64 as HW64.
+  pose proof (pw_pos a m_pw_cases) as Hp. pose proof m_W_64 as HW64. destruct mwf_fp0 as [Hf0 Hf47].
   destruct all as [|f t] eqn:Eall.
   - unfold mem_ok. rewrite Hml. cbn [mix_total]. rewrite Z.mul_0_r. reflexivity.
   - rewrite <- Eall in *.
@@ -447,10 +669,11 @@ Proof.
       destruct (a_pw a * mix_total all =? 0) eqn:E; [apply Z.eqb_eq in E; nia|]. cbn [negb andb].
       apply Z.ltb_lt. unfold two64. change (2 ^ 64) with 18446744073709551616 in HW64. lia. }
     rewrite Hok.
-    rewrite (mix_chain_walk all [] (from_context {| r_ip := ip0; r_sp := base; r_fp := 0; r_lr := 0; r_gp := gp0 |} VAll TContext) None fuel).
+    rewrite (mix_chain_walk all [] (from_context {| r_ip := ip0; r_sp := base; r_fp := fp0; r_lr := 0; r_gp := gp0 |} VAll TContext) None fuel (Some fp0)).
     + reflexivity.
     + reflexivity.
     + unfold rstate. cbn. repeat split. rewrite Z.mul_0_r, Z.add_0_r. reflexivity.
+    + unfold fpinv. cbn. repeat split; auto.
     + cbn. exact Hgall.
     + intros _. rewrite Eall. discriminate.
     + exact Hfuel.
@@ -462,7 +685,10 @@ Definition mix_arch (a : arch) (os : Z) : Prop :=
   arch_ok a /\ (0 <= scan_skip_words a /\ a_scan_skip a = a_pw a * scan_skip_words a) /\
   In (a_cfi_sp_name a) (alias_group a (a_sp_name a)) /\
   reg_valid a (a_sp_name a) (plain_valid a) = true /\ reg_valid a (a_cfi_sp_name a) (plain_valid a) = true /\
-  (a_fp a = FpArm -> (os =? OS_IOS) = false) /\ (a_fp a = FpArm64 -> a_canon_fp a 0 = false).
+  (a_fp a = FpArm -> (os =? OS_IOS) = false) /\ (a_fp a = FpArm64 -> a_canon_fp a 0 = false) /\
+  a_fp_guard_words a = 2 /\
+  reg_valid a (a_sp_name a) (VSome (fp_valid a)) = true /\ reg_valid a (a_cfi_sp_name a) (VSome (fp_valid a)) = true /\
+  memb (a_fp_name a) (fp_valid a) = true.
 
 Lemma mix_arch_x86 : forall os, mix_arch x86 os.
 Proof. intros os. split; [exact arch_ok_x86|]. repeat split; try reflexivity; try discriminate. cbn; auto. Qed.
@@ -482,51 +708,51 @@ Proof. intros os. split; [exact arch_ok_mips64|]. repeat split; try reflexivity;
 
 (* the frames a walk over [fs] reaches: the callee of the record after [done] *)
 Definition reached (a : arch) (base ip0 : Z) (callee : frame) (done : list mspec) : Prop :=
-  r_sp (f_regs callee) = base + a_pw a * mix_total done /\ r_fp (f_regs callee) = 0 /\ r_lr (f_regs callee) = 0 /\
+  r_sp (f_regs callee) = base + a_pw a * mix_total done /\ r_lr (f_regs callee) = 0 /\
   reg_valid a (a_sp_name a) (f_valid callee) = true /\ reg_valid a (a_cfi_sp_name a) (f_valid callee) = true /\
   f_instr callee = prev_instr a ip0 done.
 
 Theorem mix_recovers_reached :
-  forall p a os module_at max_module_addr instr_valid base fs ip0 gp0 fuel cfi_walk,
+  forall p a os module_at max_module_addr instr_valid base fs ip0 fp0 gp0 fuel cfi_walk,
     mix_arch a os ->
     (forall done f t callee gc fwd, fs = done ++ f :: t -> reached a base ip0 callee done ->
                                     cfi_walk callee gc fwd = mix_cfi_correct a base fs callee gc fwd) ->
-    mix_wf_layout a instr_valid module_at base ip0 fs = true ->
+    mix_wf_layout a instr_valid module_at base ip0 fp0 fs = true ->
     (length fs < fuel)%nat ->
-    let '(r, v, mem) := mix_layout a base ip0 gp0 fs in
+    let '(r, v, mem) := mix_layout a base ip0 fp0 gp0 fs in
     walk_stack current_code p a os mem module_at max_module_addr cfi_walk instr_valid fuel r v
-    = Ret (from_context r v TContext :: mix_chain a v gp0 base 0 fs).
+    = Ret (from_context r v TContext :: mix_chain a v gp0 (Some fp0) base 0 fs).
 Proof.
-  intros p a os ma mm iv base fs ip0 gp0 fuel cw [Ha [Hs [Hc [Hn [Hn2 [H1 H2]]]]]] Hag Hwf Hf.
-  exact (mix_recovers p a os ma mm cw iv base fs ip0 gp0 Ha Hs Hc Hn Hn2 H1 H2 Hwf Hag fuel Hf).
+  intros p a os ma mm iv base fs ip0 fp0 gp0 fuel cw [Ha [Hs [Hc [Hn [Hn2 [H1 [H2 [H3 [H4 [H5 H6]]]]]]]]]] Hag Hwf Hf.
+  exact (mix_recovers p a os ma mm cw iv base fs ip0 fp0 gp0 Ha Hs Hc Hn Hn2 H1 H2 H3 H4 H5 H6 Hwf Hag fuel Hf).
 Qed.
 
 Theorem mix_recovers_gen :
-  forall p a os module_at max_module_addr instr_valid base fs ip0 gp0 fuel cfi_walk,
+  forall p a os module_at max_module_addr instr_valid base fs ip0 fp0 gp0 fuel cfi_walk,
     mix_arch a os ->
-    (forall callee gc fwd, r_fp (f_regs callee) = 0 -> r_lr (f_regs callee) = 0 ->
+    (forall callee gc fwd, r_lr (f_regs callee) = 0 ->
                            cfi_walk callee gc fwd = mix_cfi_correct a base fs callee gc fwd) ->
-    mix_wf_layout a instr_valid module_at base ip0 fs = true ->
+    mix_wf_layout a instr_valid module_at base ip0 fp0 fs = true ->
     (length fs < fuel)%nat ->
-    let '(r, v, mem) := mix_layout a base ip0 gp0 fs in
+    let '(r, v, mem) := mix_layout a base ip0 fp0 gp0 fs in
     walk_stack current_code p a os mem module_at max_module_addr cfi_walk instr_valid fuel r v
-    = Ret (from_context r v TContext :: mix_chain a v gp0 base 0 fs).
+    = Ret (from_context r v TContext :: mix_chain a v gp0 (Some fp0) base 0 fs).
 Proof.
-  intros p a os ma mm iv base fs ip0 gp0 fuel cw Hm Hag Hwf Hf.
+  intros p a os ma mm iv base fs ip0 fp0 gp0 fuel cw Hm Hag Hwf Hf.
   apply mix_recovers_reached; auto.
-  intros done f t callee gc fwd _ [_ [Hfp [Hlr _]]]. apply Hag; assumption.
+  intros done f t callee gc fwd _ [_ [Hlr _]]. apply Hag; assumption.
 Qed.
 
 (* the chain, read off column by column: lookup address (module attribution is the module lookup of this address),
    return address, technique label, stack pointer progress *)
-Lemma mix_chain_columns : forall a v gp base off fs,
-  map f_instr (mix_chain a v gp base off fs) = map (fun f => ms_ra f - a_adj a) fs /\
-  map f_resume (mix_chain a v gp base off fs) = map ms_ra fs /\
-  map f_trust (mix_chain a v gp base off fs) = map (fun f => mix_trust (ms_tech f)) fs /\
-  length (mix_chain a v gp base off fs) = length fs.
+Lemma mix_chain_columns : forall a v gp st base off fs,
+  map f_instr (mix_chain a v gp st base off fs) = map (fun f => ms_ra f - a_adj a) fs /\
+  map f_resume (mix_chain a v gp st base off fs) = map ms_ra fs /\
+  map f_trust (mix_chain a v gp st base off fs) = map (fun f => mix_trust (ms_tech f)) fs /\
+  length (mix_chain a v gp st base off fs) = length fs.
 Proof.
-  intros a v gp base off fs. revert v gp off.
-  induction fs as [|f t IH]; intros v gp off; cbn [mix_chain map length]; [auto|].
-  destruct (IH (mix_next_valid a (ms_tech f) v) (mix_next_gp (ms_tech f) gp) (off + ms_len f + 1)) as [I1 [I2 [I3 I4]]].
+  intros a v gp st base off fs. revert v gp st off.
+  induction fs as [|f t IH]; intros v gp st off; cbn [mix_chain map length]; [auto|].
+  destruct (IH (mix_next_valid a (ms_tech f) v) (mix_next_gp (ms_tech f) gp) (mix_next_st (ms_tech f) (ms_fill f) st) (off + ms_len f + 1)) as [I1 [I2 [I3 I4]]].
   rewrite I1, I2, I3, I4. cbn [mix_frame f_instr f_resume f_trust]. auto.
 Qed.
